@@ -9,7 +9,7 @@
       "A"  {kernel/depthwise_quantizer: qA, bias_quantizer: bA}
       "B"  {kernel/depthwise_quantizer: qB, activation_quantizer: aB}
       "S"  the string aS                 (QActivation-style entries)
-      "D"  {"relu": aDr, "leakyrelu": aDl}
+      "D"  {"relu": aDr, "leakyrelu": aDl}     "Dr" {"relu": aDr}     "Dl" {"leakyrelu": aDl}
       "N"  {gamma/beta/mean/variance_quantizer: qN}      (QBatchNormalization-style entries)
    The result describes each layer as [cls, kq, bq, act] with symbolic quantizer names. *)
 EXTENDS Integers, Sequences, FiniteSets
@@ -35,14 +35,14 @@ DesignLayer(dict, layer) ==
   ELSE IF layer.kind = "Activation" THEN
        IF e \in {"absent"} THEN Keep(layer)
        ELSE IF e = "S" THEN [cls |-> "QActivation", kq |-> "none", bq |-> "none", act |-> "aS"]
-       ELSE IF e = "D" THEN (IF layer.act = "relu" THEN [cls |-> "QActivation", kq |-> "none", bq |-> "none", act |-> "aDr"]
-                             ELSE Keep(layer))
-       ELSE Keep(layer)
+       ELSE IF e \in {"D", "Dr"} THEN (IF layer.act = "relu" THEN [cls |-> "QActivation", kq |-> "none", bq |-> "none", act |-> "aDr"]
+                                      ELSE Keep(layer))
+       ELSE Keep(layer)                                  \* ("Dl": a map without an entry for this activation)
   ELSE IF layer.kind \in {"ReLU", "LeakyReLU"} THEN
        IF e = "S" THEN [cls |-> "QActivation", kq |-> "none", bq |-> "none", act |-> "aS"]
-       ELSE IF e = "D" THEN [cls |-> "QActivation", kq |-> "none", bq |-> "none",
-                             act |-> IF layer.kind = "LeakyReLU" THEN "aDl" ELSE "aDr"]
-       ELSE Keep(layer)
+       ELSE IF e = "D" \/ (e = "Dr" /\ layer.kind = "ReLU") \/ (e = "Dl" /\ layer.kind = "LeakyReLU")
+            THEN [cls |-> "QActivation", kq |-> "none", bq |-> "none", act |-> IF layer.kind = "LeakyReLU" THEN "aDl" ELSE "aDr"]
+       ELSE Keep(layer)                                  \* a map that lacks this layer's kind leaves the layer as it was
   ELSE \* BatchNormalization: converted iff its name or the class key is present at all
        IF dict[layer.name] # "absent" \/ dict["QBatchNormalization"] # "absent"
        THEN [cls |-> "QBatchNormalization", kq |-> IF e = "N" THEN "qN" ELSE "none", bq |-> "none", act |-> "keep:" \o layer.act]
